@@ -78,9 +78,29 @@ Nest == {<<"bin", o1, <<"a">>, <<"bin", o2, <<"b">>, <<"c", 2>>>>>> : o1 \in Bin
         \cup {<<"bin", o1, <<"un", u, <<"a">>>>, <<"b">>>> : o1 \in BinOps, u \in UnOps}
         \cup {<<"un", u, <<"bin", o1, <<"a">>, <<"b">>>>>> : o1 \in BinOps, u \in UnOps}
 
+\* chains of one logical operator over the bits of a:  (a & 1) != 0 op (a & 2) != 0 op ...  (n operands): with a swept over
+\* 0 .. 2^n - 1 every operand is decisive for some input
+RECURSIVE Pw2Aux(_)
+Pw2Aux(k) == IF k = 0 THEN 1 ELSE 2 * Pw2Aux(k - 1)
+BitCond(k) == <<"cmp", "!=", <<"bin", "&", <<"a">>, <<"c", Pw2Aux(k)>>>>, <<"c", 0>>>>
+RECURSIVE BitChain(_, _, _)
+BitChain(op, k, n) == IF k = n - 1 THEN BitCond(k) ELSE <<op, BitCond(k), BitChain(op, k + 1, n)>>
+ChainProgs == {<<<<"if", BitChain(op, 0, n), <<<<"assign", "r", <<"c", 1>>>>>>, <<>>, <<<<"assign", "r", <<"c", 0>>>>>>>>>> :
+                 op \in {"and", "or"}, n \in 3..7}
+              \cup {<<<<"assign", "r", <<"c", 0>>>>,
+                     <<"if", <<"not", BitChain(op, 0, n)>>, <<<<"assign", "r", <<"c", 2>>>>>>, <<>>, <<>>>>>> : op \in {"and", "or"}, n \in {3, 5}}
+
+\* a match whose catch-all case is a capture pattern (case other:) and whose body reads the captured value
+CapProgs == {<<<<"assign", "t", <<"c", 0>>>>,
+               <<"matchc", subj, <<<<0, <<<<"assign", "r", <<"c", 1>>>>>>>>, <<1, <<<<"assign", "r", <<"c", 5>>>>>>>>>>,
+                 <<<<"assign", "r", <<"bin", "+", <<"t">>, <<"c", 1>>>>>>>>>>>> :
+               subj \in {<<"a">>, <<"bin", "&", <<"a">>, <<"c", 5>>>>, <<"b">>}}
+
 VARIABLES id, prog, kind
 Init == IF Mode = "random"
         THEN /\ id \in 1..NProg /\ kind = (IF id % 3 = 0 THEN "propagate" ELSE "clock") /\ prog = RProg(id)
+        ELSE IF Mode = "chains"
+        THEN /\ id = 0 /\ kind \in {"clock", "propagate"} /\ prog \in (ChainProgs \cup CapProgs)
         ELSE IF Mode = "nesting"
         THEN /\ id = 0 /\ kind = "propagate" /\ \E e \in Nest : prog = <<<<"assign", "r", e>>>>
         ELSE /\ id = 0 /\ kind \in {"clock", "propagate"} /\ \E e \in E1 : prog = <<<<"assign", "r", e>>>>
